@@ -767,7 +767,7 @@ pub fn run(ctx: &Ctx) -> i32 {
     ctx.run_replays(|c, case| replay_any(c, case, &ctx.known));
     // corpus replay: the repository's queries under every dialect
     let mut corpus = vec![];
-    for s in crate::util::repo_queries() {
+    for s in crate::util::corpus_programs() {
         for d in 0..DIALECTS.len() {
             corpus.push(Case { kind: "source".into(), input: s.clone(), dialect: d });
         }
